@@ -593,6 +593,7 @@ func runC07(p *core.Prog, r *core.Report) {
 		checkNoSilentTruncation(p, r, "C07.R2", []loopSite{{pkgStage, "Stages.FetchStoresState", nil}, {pkgStage, "Stages.multiSquash", nil}, {pkgPipe, "Stores.saveStoresSnapshots", nil}})
 	})
 	r.Guard("C07.R3", "OnStreamTerminated", "graceful end only", func() { checkOnStreamTerminated(p, r, "C07.R3") })
+	r.Guard("C07.R3", "stream-end", "failed step never classified EOF", func() { checkStreamEndClassification(p, r, "C07.R3") })
 	r.MinInstances("C07.R1", 6)
 	r.MinInstances("C07.R2", 6)
 	r.MinInstances("C07.R3", 7)
